@@ -1,4 +1,4 @@
-From Coq Require Import List Arith Bool Lia.
+From Coq Require Import List Arith Bool Lia Permutation.
 Import ListNotations.
 From LCC Require Import Model.Attach.
 
@@ -20,4 +20,88 @@ Qed.
 Theorem unlocked_names_collide : exists sched nthreads, ~ NoDup (names_of (run_unlocked nthreads sched)).
 Proof.
   exists [0; 1; 0; 1], 2. vm_compute. intros H. inversion H as [|x l Hn Hd]; subst. apply Hn. left. reflexivity.
+Qed.
+
+(* ---------------- the whole life of an attachment ---------------- *)
+Lemma take_open_split t l n r : take_open t l = Some (n, r) ->
+  exists l1 l2, l = l1 ++ (t, n) :: l2 /\ r = l1 ++ l2.
+Proof.
+  revert n r. induction l as [|[k m] l IH]; simpl; intros n r H; [discriminate|].
+  destruct (Nat.eqb_spec k t) as [->|Hne].
+  - injection H as Hn Hr. subst n r. exists [], l. auto.
+  - destruct (take_open t l) as [[m' r']|] eqn:E; [|discriminate]. injection H as Hn Hr. subst n r.
+    destruct (IH m' r' eq_refl) as [l1 [l2 [A B]]]. exists ((k, m) :: l1), l2. rewrite A, B. auto.
+Qed.
+
+(* invariant: the numbers handed out are 1..count in order; those still open and those referenced are pairwise distinct
+   and were all handed out *)
+Record BInv (s : bstate) : Prop := {
+  bi_all : b_all s = seq 1 (b_count s);
+  bi_nodup : NoDup (b_refs s ++ map snd (b_open s));
+  bi_le : forall n, In n (b_refs s ++ map snd (b_open s)) -> 1 <= n <= b_count s }.
+
+Lemma BInv_b0 : BInv b0.
+Proof. constructor; simpl; [reflexivity|constructor|tauto]. Qed.
+
+Lemma NoDup_move (A : Type) (x : A) (refs l1 l2 : list A) :
+  NoDup (refs ++ l1 ++ x :: l2) -> NoDup ((refs ++ [x]) ++ l1 ++ l2).
+Proof.
+  intros H. apply (Permutation_NoDup (l := refs ++ l1 ++ x :: l2)); [|exact H].
+  rewrite <- app_assoc. apply Permutation_app_head. simpl. symmetry. apply Permutation_middle.
+Qed.
+
+Lemma NoDup_drop (A : Type) (x : A) (refs l1 l2 : list A) :
+  NoDup (refs ++ l1 ++ x :: l2) -> NoDup (refs ++ l1 ++ l2).
+Proof. intros H. rewrite app_assoc in H. apply NoDup_remove in H. rewrite <- app_assoc in H. tauto. Qed.
+
+Lemma bstep_BInv s o : BInv s -> BInv (bstep s o).
+Proof.
+  intros [A N L]. destruct o as [t|t|t]; simpl.
+  - constructor; cbn [b_all b_count b_refs b_open map snd].
+    + rewrite A. rewrite seq_S. reflexivity.
+    + assert (~ In (S (b_count s)) (b_refs s ++ map snd (b_open s))) by (intros F; apply L in F; lia).
+      clear - N H. revert N H. generalize (map snd (b_open s)) as o. generalize (b_refs s) as r.
+      intros r o N H. induction r as [|y r IH]; simpl in *.
+      * constructor; auto.
+      * inversion N; subst. constructor.
+        -- rewrite in_app_iff in *. simpl. intros [F|[F|F]]; [tauto|subst; tauto|tauto].
+        -- apply IH; auto.
+    + intros n H. rewrite in_app_iff in H. simpl in H. destruct H as [H|[H|H]].
+      * assert (1 <= n <= b_count s) by (apply L; rewrite in_app_iff; auto). lia.
+      * subst. lia.
+      * assert (1 <= n <= b_count s) by (apply L; rewrite in_app_iff; auto). lia.
+  - destruct (take_open t (b_open s)) as [[n r]|] eqn:E; [|constructor; auto].
+    destruct (take_open_split _ _ _ _ E) as [l1 [l2 [E1 E2]]]. subst r. rewrite E1 in *.
+    rewrite map_app in *. simpl in *. constructor; simpl; auto.
+    + rewrite map_app. apply NoDup_move. exact N.
+    + intros m H. apply L. rewrite map_app in H. rewrite !in_app_iff in *. simpl in *. tauto.
+  - destruct (take_open t (b_open s)) as [[n r]|] eqn:E; [|constructor; auto].
+    destruct (take_open_split _ _ _ _ E) as [l1 [l2 [E1 E2]]]. subst r. rewrite E1 in *.
+    rewrite map_app in *. simpl in *. constructor; simpl; auto.
+    + rewrite map_app. eapply NoDup_drop. exact N.
+    + intros m H. apply L. rewrite map_app in H. rewrite !in_app_iff in *. simpl in *. tauto.
+Qed.
+
+Lemma brun_BInv_from ops : forall s, BInv s -> BInv (fold_left bstep ops s).
+Proof. induction ops as [|o r IH]; simpl; intros s H; auto. apply IH. apply bstep_BInv. exact H. Qed.
+
+(* for EVERY sequence of reservations, normal ends and failures, by any threads, nested or not: every number is handed out
+   once, the report never references one number twice, and it only references numbers that were handed out *)
+Theorem block_names_distinct : forall ops : list aop,
+  NoDup (b_all (brun ops)) /\ NoDup (b_refs (brun ops)) /\ incl (b_refs (brun ops)) (b_all (brun ops)).
+Proof.
+  intros ops. destruct (brun_BInv_from ops b0 BInv_b0) as [A N L]. fold (brun ops) in *. split; [|split].
+  - rewrite A. apply seq_NoDup.
+  - clear - N. revert N. generalize (map snd (b_open (brun ops))) as o. induction (b_refs (brun ops)) as [|y r IH]; simpl; intros o N.
+    + constructor.
+    + inversion N; subst. constructor; [rewrite in_app_iff in *; tauto|eapply IH; eauto].
+  - intros n H. rewrite A. apply in_seq. assert (1 <= n <= b_count (brun ops)) by (apply L; rewrite in_app_iff; auto). lia.
+Qed.
+
+(* ... and this is why an abandoned block must not give its number back: A reserves 1, B reserves 2 and ends, A fails (the counter
+   goes back to 1), C reserves 2 again and ends: the report references the file 0002 twice *)
+Theorem giveback_collides : exists ops, ~ NoDup (b_refs (brun_giveback ops)).
+Proof.
+  exists [Reserve 0; Reserve 1; Commit 1; Abandon 0; Reserve 2; Commit 2]. vm_compute.
+  intros H. inversion H as [|x l Hn Hd]; subst. apply Hn. left. reflexivity.
 Qed.
